@@ -118,7 +118,15 @@ def audit_instance(ctx, run, k, s):
     if not wire.close(z0, float(s.z), 1e-4, 1e-7):
         ctx.count("resolve-differs-from-captured")
     # scale invariance, tied to the model's scaleInp by row comparison
-    kfac = ctx.rng.choice([1e-3, 1e-2, 0.5, 3.0, 10.0, 1e3])
+    # common scale factor: keep the scaled population inside the range real runs span (1e5 … 1e11 people; Djibouti … world x 10):
+    # far below it the quantities of the LP (billion kcals) sink under CBC's ABSOLUTE tolerances (1e-7), which is solver
+    # resolution, not a property of the allocation problem (scale_optimum proves exact invariance of the LP itself)
+    pop = float(C0["POP"])
+    ks = [k_ for k_ in [1e-3, 1e-2, 0.1, 0.5, 3.0, 10.0, 1e2, 1e3] if 1e5 <= k_ * pop <= 1e11]
+    if not ks:
+        ctx.count("scale-skipped:population-out-of-range")
+        ks = [1.0]
+    kfac = ctx.rng.choice(ks)
     Cs, Ts = scale_instance(C0, T0, kfac)
     try:
         zs, opts, rows_s = solve(Cs, Ts)
